@@ -46,6 +46,8 @@ theorem norm_id : ∀ (ty : Ty), wireCanon ty = true → ∀ v, norm ty v = v
   | .bytes, _, v => by cases v <;> simp [norm]
   | .box sz t, h, v => by
     simp only [norm]; exact norm_id t (by simpa [wireCanon] using h) v
+  | .wrap t, h, v => by
+    simp only [norm]; exact norm_id t (by simpa [wireCanon] using h) v
   | .duration, _, v => by cases v <;> simp [norm]
   | .range t, h, v => by
     have ht : wireCanon t = true := by simpa [wireCanon] using h
@@ -125,6 +127,8 @@ theorem canon_true : ∀ (ty : Ty), wireCanon ty = true → ∀ v, canon ty v = 
   | .str, _, v => by cases v <;> simp [canon]
   | .bytes, _, v => by cases v <;> simp [canon]
   | .box sz t, h, v => by
+    simp only [canon]; exact canon_true t (by simpa [wireCanon] using h) v
+  | .wrap t, h, v => by
     simp only [canon]; exact canon_true t (by simpa [wireCanon] using h) v
   | .duration, _, v => by cases v <;> simp [canon]
   | .range t, h, v => by
